@@ -286,6 +286,10 @@ ETYPES = {
     "empty": ("E_empty", "org.example.Empty", []),
     "shadow": ("E_shadow", "org.varlink.service",
                [("PermissionDenied", None), ("Custom", [("why", "str")])]),
+    # the options of a field spread over several #[zlink(..)] attributes (rename in a later one, next to
+    # another key): the wire names are the renames
+    "spread": ("E_spread", "org.example.Spread",
+               [("Quota", [("maxBytes", "u32"), ("usedBytes", "u32"), ("fileName", "str")]), ("Busy", None)]),
     # fields declared with raw identifiers (r#type, r#match + rename, r#ref, r#in + rename): the names
     # here are the WIRE names the property prescribes (un-rawed); C05 only
     "raw": ("E_raw", "org.example.Raw",
